@@ -18,7 +18,9 @@ import time
 
 from . import config as C
 
-KANI_TARGET = os.path.join(C.BUILD, "kani")
+import hashlib
+# one Kani build directory per repository location: artifacts of different copies of the repository must never mix
+KANI_TARGET = os.path.join(C.BUILD, "kani_" + hashlib.sha1(os.path.realpath(C.REPO).encode()).hexdigest()[:10])
 
 # group -> dict(harnesses=[(name, kind, repo function)], quick=[names], thorough=[names])
 GROUPS = {
